@@ -359,6 +359,15 @@ func isNeighborLT(buf string, prev Token) bool {
 	return buf[prev.end()] == '<'
 }
 
+// cur is placed just after the previous token (no space between them).
+func isNeighborOfPrev(buf string, cur Token) bool {
+	if cur.begin == 0 || len(buf) < cur.begin {
+		return false
+	}
+	c := buf[cur.begin-1]
+	return c != ' ' && c != '\t' && c != '\n'
+}
+
 // next non-space token.
 func nextToken(buf string, prev Token) Token {
 	if len(buf) <= prev.end() {
